@@ -157,10 +157,12 @@ def impl_answers(kind, thr, allowed, segs):
         if si > 0:
             c.reset_state()
         row = []
+        running = None  # the solver passes the best value found SO FAR in the run as third argument (not the generation's best)
         for e in seg:
             ns = to_ns(e)
+            running = ns.best_expectation_value if running is None else min(running, ns.best_expectation_value)
             try:
-                row.append(bool(c.check_termination(ns, None, ns.best_expectation_value)))
+                row.append(bool(c.check_termination(ns, None, running)))
             except Exception as ex:  # noqa: BLE001
                 row.append("exc:" + type(ex).__name__)
         out.append(row)
